@@ -57,7 +57,12 @@ def c10_r1(ctx):
             wtuple = c.args[0]
     if wtuple is None:
         raise AnalysisError("block info tuple not found in _write_block")
-    wroles = [_role_w(norm.deep_canon(e, wb.node)) for e in wtuple.elts]
+    # the compression field: the value handed to compress() as its level / tested before compressing
+    comp_texts = set()
+    for c in norm.calls_in(wb.node):
+        if norm.call_name(c) == "compress" and len(c.args) >= 2:
+            comp_texts.add(norm.canon(c.args[1]))
+    wroles = ["compression" if norm.canon(e) in comp_texts else _role_w(norm.deep_canon(e, wb.node)) for e in wtuple.elts]
     # reader unpacking: the tuple assigned from the value read_pickle() returned
     G = pm.Alpha(gt)
     rroles = None
@@ -126,7 +131,7 @@ def c10_r1(ctx):
     detail = []
     for rn, (wexpr, idx) in want.items():
         rf = prog.method(W3 + "W3LeafMatcher", rn, inherited=False)
-        subs = [norm.canon(n.slice) for n in ast.walk(rf.node) if isinstance(n, ast.Subscript) and norm.canon(n.value) == "self._data"]
+        subs = [norm.canon(n.slice) for n in ast.walk(rf.node) if isinstance(n, ast.Subscript) and norm.deep_canon(n.value, rf.node) == "self._data"]
         detail.append("%s reads _data[%s]" % (rn, ",".join(subs)))
         ok = ok and subs == [str(idx)] and dtuple[idx] == wexpr
     ctx.ob("W3PostingsWriter._write_block <-> W3LeafMatcher._read_*", ok, "data tuple (ids, weights, values) is read at the same indices",
@@ -181,12 +186,22 @@ def c10_r1(ctx):
         a_ = n.ast
         if n.kind == "stmt" and isinstance(a_, ast.Assign) and norm.canon(a_.targets[0]) == "self._weights":
             facts = frw.at(n) or frozenset()
+            def fill_value(e):
+                """the element a constant-filled array is built from: array(t, (x for _ in range(n))) / array(t, [x]) * n / [x] * n"""
+                if isinstance(e, ast.BinOp) and isinstance(e.op, ast.Mult):
+                    for side in (e.left, e.right):
+                        if isinstance(side, ast.Call) and side.args and isinstance(side.args[-1], ast.List) and len(side.args[-1].elts) == 1:
+                            return side.args[-1].elts[0]
+                        if isinstance(side, ast.List) and len(side.elts) == 1:
+                            return side.elts[0]
+                if isinstance(e, ast.Call) and e.args and isinstance(e.args[-1], (ast.GeneratorExp, ast.ListComp)):
+                    return e.args[-1].elt
+                return None
+            fv = fill_value(a_.value)
             if RW.fact(facts, "T", "weights is None"):
-                stores.append("none" if isinstance(a_.value, ast.Call) and a_.value.args and isinstance(a_.value.args[-1], ast.GeneratorExp)
-                              and norm.canon(a_.value.args[-1].elt) == "1.0" else "none?")
+                stores.append("none" if fv is not None and norm.canon(fv) == "1.0" else "none?")
             elif RW.fact(facts, "T", "isinstance(weights, float)"):
-                stores.append("scalar" if isinstance(a_.value, ast.Call) and a_.value.args and isinstance(a_.value.args[-1], ast.GeneratorExp)
-                              and RW.eq(a_.value.args[-1].elt, "weights") else "scalar?")
+                stores.append("scalar" if fv is not None and RW.eq(fv, "weights") else "scalar?")
             else:
                 stores.append("array" if RW.eq(a_.value, "weights") else "array?")
     reader_ok = sorted(stores) == ["array", "none", "scalar"]
@@ -198,10 +213,14 @@ def c10_r1(ctx):
     rv = prog.method(W3 + "W3LeafMatcher", "_read_values", inherited=False)
 
     def size_cases(func):
+        # tests on the format's fixed value size, whatever local holds it (writer: self._format.fixed_value_size(), reader: self._fixedsize)
         out = []
         for st in ast.walk(func.node):
-            if isinstance(st, ast.If) and "fixedsize" in norm.canon(st.test):
-                out.append(norm.canon(st.test))
+            if isinstance(st, ast.If):
+                t = norm.deep_canon(st.test, func.node)
+                t2 = t.replace("self._format.fixed_value_size()", "FS").replace("self._fixedsize", "FS")
+                if "FS" in t2:
+                    out.append(t2)
         return out
     ctx.ob("W3PostingsWriter._mini_values <-> W3LeafMatcher._read_values", size_cases(mv) == size_cases(rv) and len(size_cases(mv)) >= 2,
            "value packing and unpacking branch on the same fixed-size cases", detail="%s / %s" % (size_cases(mv), size_cases(rv)), loc=mv.loc)
